@@ -11,6 +11,7 @@ import (
 	"os/exec"
 	"strings"
 	"sync"
+	"sync/atomic"
 	"syscall"
 	"time"
 
@@ -32,9 +33,11 @@ func init() {
 // ---- the child ---------------------------------------------------------------
 
 type ttyModel struct {
-	log  *os.File
-	gate string // path: Update of key 'b' blocks until this file exists
-	mu   *sync.Mutex
+	log       *os.File
+	gate      string // path: Update of key 'b' blocks until this file exists
+	mu        *sync.Mutex
+	panicInit bool
+	panicView *int32 // View panics once this is set (key 'v')
 }
 
 func (m ttyModel) logf(f string, a ...interface{}) {
@@ -44,7 +47,12 @@ func (m ttyModel) logf(f string, a ...interface{}) {
 	m.mu.Unlock()
 }
 
-func (m ttyModel) Init() tea.Cmd { return nil }
+func (m ttyModel) Init() tea.Cmd {
+	if m.panicInit {
+		panic("verif: panic in Init")
+	}
+	return nil
+}
 
 func (m ttyModel) Update(msg tea.Msg) (tea.Model, tea.Cmd) {
 	switch v := msg.(type) {
@@ -54,6 +62,10 @@ func (m ttyModel) Update(msg tea.Msg) (tea.Model, tea.Cmd) {
 		switch v.String() {
 		case "q":
 			return m, tea.Quit
+		case "p":
+			panic("verif: panic in Update")
+		case "v":
+			atomic.StoreInt32(m.panicView, 1)
 		case "w":
 			return m, tea.WindowSize()
 		case "b":
@@ -83,6 +95,9 @@ func (m ttyModel) Update(msg tea.Msg) (tea.Model, tea.Cmd) {
 }
 
 func (m ttyModel) View() string {
+	if m.panicView != nil && atomic.LoadInt32(m.panicView) == 1 {
+		panic("verif: panic in View")
+	}
 	return strings.Repeat("0123456789", 30) + "\nshort\n"
 }
 
@@ -93,8 +108,11 @@ func childTTY(args []string) int {
 	if err != nil {
 		return 3
 	}
-	m := ttyModel{log: lf, gate: gate, mu: &sync.Mutex{}}
+	m := ttyModel{log: lf, gate: gate, mu: &sync.Mutex{}, panicView: new(int32), panicInit: strings.Contains(mode, "panicinit")}
 	var opts []tea.ProgramOption
+	if strings.Contains(mode, "inputtty") {
+		opts = append(opts, tea.WithInputTTY())
+	}
 	switch mode {
 	case "nohandler":
 		opts = append(opts, tea.WithoutSignalHandler())
@@ -152,6 +170,7 @@ type ptyRun struct {
 	out     *safeBuffer
 	exited  chan error
 	before  *unix.Termios
+	keep    []*os.File // extra descriptors that must stay open while the child runs
 }
 
 func startPtyChild(mode string, w, h int) (*ptyRun, error) {
@@ -171,6 +190,16 @@ func startPtyChild(mode string, w, h int) (*ptyRun, error) {
 	cmd.Stdin, cmd.Stdout, cmd.Stderr = pair.slave, pair.slave, pair.slave
 	cmd.Env = append(os.Environ(), "TERM=dumb")
 	cmd.SysProcAttr = &syscall.SysProcAttr{Setsid: true, Setctty: true, Ctty: 0}
+	if strings.Contains(mode, "pipein") {
+		// stdin is not a terminal: Run opens the controlling terminal (/dev/tty) itself
+		pr, pw, err := os.Pipe()
+		if err != nil {
+			return nil, err
+		}
+		r.keep = append(r.keep, pr, pw)
+		cmd.Stdin = pr
+		cmd.SysProcAttr.Ctty = 1
+	}
 	if err := cmd.Start(); err != nil {
 		return nil, err
 	}
@@ -222,6 +251,9 @@ func (r *ptyRun) cleanup() {
 	}
 	r.pair.master.Close()
 	r.pair.slave.Close()
+	for _, f := range r.keep {
+		f.Close()
+	}
 	os.RemoveAll(strings.TrimSuffix(r.logPath, "/log"))
 }
 
@@ -233,6 +265,70 @@ func (r *ptyRun) sizes() []string {
 		}
 	}
 	return out
+}
+
+// ptyExit: termios and modes after every kind of exit, for every way the input terminal is
+// obtained (stdin is the terminal; stdin is a pipe and Run opens /dev/tty itself; WithInputTTY).
+func ptyExit(out *scenOut, input, cause string) {
+	desc := fmt.Sprintf("input=%s exit=%s", input, cause)
+	mode := "default-" + input
+	if cause == "panic-init" {
+		mode += "-panicinit"
+	}
+	r, err := startPtyChild(mode, 80, 24)
+	if err != nil {
+		out.fail(finding{Property: "C05", Class: "harness", What: "cannot start the pty child: " + err.Error(), Input: desc})
+		return
+	}
+	defer r.cleanup()
+	if cause != "panic-init" {
+		if !r.waitLog("size ", 5*time.Second) {
+			out.fail(finding{Property: "C05", Class: "harness", What: "child did not start", Input: desc, Observed: strings.Join(r.logLines(), ";")})
+			return
+		}
+		time.Sleep(20 * time.Millisecond)
+		during, _ := unix.IoctlGetTermios(int(r.pair.slave.Fd()), unix.TCGETS)
+		if during != nil && r.before != nil && *during == *r.before {
+			out.record(desc+" (terminal never left cooked mode)", desc)
+		}
+		key := map[string]string{"quit": "q", "panic-update": "p", "panic-view": "v"}[cause]
+		r.pair.master.Write([]byte(key))
+		if cause == "panic-view" {
+			time.Sleep(10 * time.Millisecond)
+			r.pair.master.Write([]byte("x")) // any message: the next View panics
+		}
+	}
+	select {
+	case <-r.exited:
+	case <-time.After(5 * time.Second):
+		out.fail(finding{Property: "C04", Class: "new", What: "Run does not return", Input: desc, Observed: strings.Join(r.logLines(), ";")})
+		return
+	}
+	out.record(desc, desc)
+	want := "killed"
+	if cause == "quit" {
+		want = "nil"
+	}
+	got := ""
+	for _, l := range r.logLines() {
+		if strings.HasPrefix(l, "run-returned ") {
+			got = l[len("run-returned "):]
+		}
+	}
+	if got != want {
+		out.fail(finding{Property: "C04", Class: "new", What: "wrong Run result", Input: desc, Expected: want, Observed: got})
+	}
+	time.Sleep(20 * time.Millisecond)
+	t := newVterm(80, 24)
+	t.write([]byte(r.out.String()))
+	if gotm := vtModes(t); gotm != (modeSpec{}).String() {
+		out.fail(finding{Property: "C05", Class: "new", What: "terminal modes not restored when Run returned", Input: desc, Expected: (modeSpec{}).String(), Observed: gotm})
+	}
+	after, _ := unix.IoctlGetTermios(int(r.pair.slave.Fd()), unix.TCGETS)
+	if r.before != nil && after != nil && *r.before != *after {
+		out.fail(finding{Property: "C05", Class: "new", What: "termios of the input terminal differ from those before Run", Input: desc,
+			Expected: fmt.Sprintf("%+v", *r.before), Observed: fmt.Sprintf("%+v", *after)})
+	}
 }
 
 func scenPty(out *scenOut, rr *rng, thorough bool) {
@@ -262,6 +358,17 @@ func scenPty(out *scenOut, rr *rng, thorough bool) {
 			defer func() { <-sem }()
 			ptySignal(out, s.mode, s.sig, s.phase)
 		}(s)
+	}
+	for _, input := range []string{"stdin", "pipein", "inputtty"} {
+		for _, cause := range []string{"quit", "panic-update", "panic-init", "panic-view"} {
+			wg.Add(1)
+			sem <- struct{}{}
+			go func(input, cause string) {
+				defer wg.Done()
+				defer func() { <-sem }()
+				ptyExit(out, input, cause)
+			}(input, cause)
+		}
 	}
 	reps := 3
 	if thorough {
@@ -431,6 +538,21 @@ func ptyResize(out *scenOut, rr *rng) {
 			break
 		}
 		time.Sleep(15 * time.Millisecond)
+	}
+	// the WindowSize command is answered every time, also when the size has not changed
+	// since the last report (twice in a row)
+	for k := 0; k < 2; k++ {
+		r.pair.master.Write([]byte("w"))
+		want = append(want, fmt.Sprintf("%d %d", w, h))
+		n := len(want)
+		if !waitFor(2*time.Second, func() bool { return len(r.sizes()) >= n }) {
+			break
+		}
+		time.Sleep(10 * time.Millisecond)
+	}
+	if got := r.sizes(); strings.Join(got, ", ") != strings.Join(want, ", ") {
+		out.fail(finding{Property: "C18", Class: "new", What: "Update did not receive exactly the true window sizes (start-up, every resize, every WindowSize command)", Input: desc + " -> " + strings.Join(want, ", "),
+			Expected: strings.Join(want, ", "), Observed: strings.Join(got, ", ")})
 	}
 	// two resizes back to back while Update is busy: the size reported last must be the true one
 	{
